@@ -155,6 +155,7 @@ static StepRes run_step(const Op &op, const bytes &input, const bytes &key, cons
   pc.sched = wapi::SchedSpec::parse(op.sched);
   if (op.level == "api")
   {
+    pc.null_input = op.tamper == 9; // "the input file could not be opened": the operation gets a NULL stream and refuses
     wapi::OpOut o;
     if (op.kind == "enc")
       o = wapi::encrypt(input, k, bytes{'h', 'i', 's', 't', (uint8_t)('0' + (op.seedid & 3))}, op.cmode, op.hmode, pc);
@@ -504,6 +505,8 @@ static Case gen_c15()
       o.T = srcT;
       o.chunk = (int)c.geti("chunk" + std::to_string(o.src), o.chunk);
       o.tamper = g::coin(30) ? (int)g::range(1, 5) : 0;
+      if (o.level == "api" && g::coin(8))
+        o.tamper = 9; // NULL input stream
       o.wrongkey = g::coin(20) ? (int)g::range(1, 3) : 0;
       o.keyid = (int)c.geti("keyid" + std::to_string(o.src), 0);
       kinds.push_back(o.kind == "dec" ? "plain" : "none");
